@@ -39,7 +39,7 @@ def run(ctx):
                             r = obj(data, force)
                             if r is None: e['obs'] = dict(none=True, digest=[])
                             else:
-                                e['obs'] = dict(none=False, digest=B(r) if isinstance(r, (bytes, bytearray)) else [-1])
+                                e['obs'] = dict(none=False, digest=B(r) if isinstance(r, bytes) else [-1])
                                 digests.setdefault((buckets, wnd, chk), []).append((bytes(r), obj, tlsh_fields(obj), data, force))
                         except Exception as ex: e['raised'] = type(ex).__name__
                         ev.append(e); ctx.mark((buckets, wnd, chk, n, cls, force))
@@ -87,6 +87,14 @@ def run(ctx):
                         ev.append(e); found += 1; ctx.mark(('exact-percentage quartiles', bkts, q1, q2, q3))
             if found >= (6 if big else 3): break
     except ImportError: pass
+    # runs of identical bytes (zero padding, '=====' rules) longer than every window inside otherwise ordinary text
+    for bkts, wnd, chk in ((128, 5, 1), (128, 5, 3), (256, 8, 3), (48, 4, 1), (128, 7, 3)):
+        data = text(300) + b'=' * 12 + text(200) + bytes(20) + text(150) + b'\xff' * 9 + text(60)
+        e = dict(op='tlsh', cfg=dict(buckets=bkts, wnd=wnd, chk=chk), data=B(data), force=False, raised='', obs=dict(none=True, digest=[]))
+        try:
+            r = T.TLSH(bkts, wnd, chk)(data, False); e['obs'] = dict(none=r is None, digest=[] if r is None else core.SB(r))
+        except Exception as ex: e['raised'] = type(ex).__name__
+        ev.append(e); ctx.mark(('runs', bkts, wnd, chk))
     # very long inputs: one bucket counts far beyond 2^16
     for data in ([bytes(66000) + text(2500), bytes(66000)] if big else [bytes(66000) + text(2500)]):
         e = dict(op='tlsh', cfg=dict(buckets=128, wnd=5, chk=1), data=B(data), force=False, raised='', obs=dict(none=True, digest=[]))
@@ -117,7 +125,7 @@ def run(ctx):
             e = dict(op='tlsh_reload', cfg=cfg, h=B(h), fields=fields, raised='', obs={})
             try:
                 o2 = T.TLSH(buckets, wnd, chk).from_hash(h); o2.digest()
-                e['obs'] = dict(bytes=B(o2.lsh_code), fields=tlsh_fields(o2))
+                e['obs'] = dict(bytes=core.SB(o2.lsh_code), fields=tlsh_fields(o2))
             except Exception as ex: e['raised'] = type(ex).__name__
             ev.append(e)
         pairs = [(lst[i], lst[j]) for i in range(len(lst)) for j in range(len(lst))][: (40 if big else 4)]
@@ -139,7 +147,7 @@ def run(ctx):
             data = text(n) if n % 2 else (rb(n) if n % 4 else binary(n))
             e = dict(op='nil', target=tv, data=B(data), raised='', obs=[])
             try:
-                r = (N.Nilsimsa() if target is None else N.Nilsimsa(target))(data); e['obs'] = B(r)
+                r = (N.Nilsimsa() if target is None else N.Nilsimsa(target))(data); e['obs'] = core.SB(r)
                 nds.setdefault(tv, []).append(bytes(r))
             except Exception as ex: e['raised'] = type(ex).__name__
             ev.append(e); ctx.mark(('nil', tv, n))
@@ -157,7 +165,7 @@ def run(ctx):
             try:
                 o = N.Nilsimsa() if target is None else N.Nilsimsa(target)
                 for x in pieces: o.update(x)
-                e['obs'] = B(o.digest())
+                e['obs'] = core.SB(o.digest())
             except Exception as ex: e['raised'] = type(ex).__name__
             ev.append(e)
         data = text(23)
